@@ -30,7 +30,7 @@ PROPS = {"C09": dict(
         "Zrnt.Proofs.C09.head_eq_ghost_partial",
         "Zrnt.Proofs.C09.Old.head_eq_ghost_false",
     ],
-    modes=[dict(name="fc09", stateful=True, max_shrinks=3,
+    modes=[dict(name="fc09", stateful=True, max_shrinks=2,
                 nontrivial=_nontrivial(("head", "findhead", "att", "block", "slot", "justify", "pin")))],
     level="proof",
     trusted_base=FC_TB,
